@@ -164,7 +164,10 @@ def run(ctx):
         faults = {"exit0": [{"op": "exit", "code": 0}], "exit1": [{"op": "exit", "code": 1}], "sigkill": [{"op": "kill"}],
                   "close-stdin": [{"op": "close_stdin"}], "close-stdout": [{"op": "close_stdout"}],
                   "close-both": [{"op": "close_stdin"}, {"op": "close_stdout"}],
-                  "close-stdin-then-silent": [{"op": "close_stdin"}, {"op": "sleep", "ms": 300}, {"op": "exit", "code": 0}]}
+                  "close-stdin-then-silent": [{"op": "close_stdin"}, {"op": "sleep", "ms": 300}, {"op": "exit", "code": 0}],
+                  # a wedged peer: closes its input (or both pipes) and stays alive - it must be terminated by the VM
+                  "close-stdin-then-wedged": [{"op": "close_stdin"}, {"op": "sleep", "ms": 8000}, {"op": "exit", "code": 0}],
+                  "close-both-then-wedged": [{"op": "close_stdin"}, {"op": "close_stdout"}, {"op": "sleep", "ms": 8000}, {"op": "exit", "code": 0}]}
         for fname, f in faults.items():
             steps = {"before-init-read": [] + f,
                      "before-ready": [{"op": "read"}] + f,
@@ -194,7 +197,8 @@ def run(ctx):
             keepA = [jb for jb in jobs if meta[jb[4]][0] == "A"]
             keepB = [jb for jb in jobs if meta[jb[4]][0] == "B"]
             rng.shuffle(keepB)
-            must = [jb for jb in keepB if "handshake" in jb[4] or jb[4] == "honest"]
+            must = [jb for jb in keepB if "handshake" in jb[4] or jb[4] == "honest" or
+                    ("wedged" in jb[4] and jb[4].split("@")[1] in ("after-ready", "before-reply-1", "after-reply-0", "on-request-2-read"))]
             jobs = keepA + must + [jb for jb in keepB if jb not in must][:70]
         with ThreadPoolExecutor(12) as ex:
             results = list(ex.map(run_script, jobs))
@@ -248,7 +252,7 @@ def run(ctx):
     ctx.sample(results[0][0]); ctx.sample(results[-1][0]); ctx.sample({"theorems": info.get("theorems", [])})
     ctx.cov["rule"] = ("scripted stand-in for nano_cop (first on PATH) against the real nano_vm --isolate-ffi on a 3-call program: (A) every malformed/garbled/oversized/"
                        "truncated reply of the catalogue at call j, outcome compared with the Lean client model; (B) protocol steps x {exit0, exit1, SIGKILL, close stdin, "
-                       "close stdout, both}: outcome must be exit 0 with complete output or exit 1 with a reported error and intact output prefix, no signal, no orphan; distinct by script label")
+                       "close stdout, both, close and stay alive (wedged)}: outcome must be exit 0 with complete output or exit 1 with a reported error and intact output prefix, no signal, no orphan; distinct by script label")
     for f in oracle_fail[:3]:
         ctx.violation({"kind": "oracle", "detail": f})
     if not oracle_fail:
